@@ -48,3 +48,39 @@ V('C20', 'drop-assert', BK, 'RawVoltageBackend.__init__', 'assert self.block_siz
 V('C20', 'b-commute', BK, 'RawVoltageBackend.record', 'self.num_blocks * self.samples_per_block * self.num_branches', 'self.num_branches * self.samples_per_block * self.num_blocks', kind='benign')
 V('C20', 'b-tbin-temp', BK, 'RawVoltageBackend.__init__', 'self.tbin = self.num_branches / self.sample_rate', 'nbr = self.num_branches\n    self.tbin = nbr * (1 / self.sample_rate)', kind='benign')
 V('C20', 'b-numblocks-tpb', BK, 'RawVoltageBackend.get_num_blocks', 'return int(obs_length * abs(self.chan_bw) * self.num_antennas * self.num_chans * self.bytes_per_sample / self.block_size)', 'return int(obs_length / (self.tbin * self.block_size / (self.num_antennas * self.num_chans * self.bytes_per_sample)))', kind='benign')
+
+# ------------------------------------------------------------------ C04
+RUF = 'voltage/raw_utils.py'
+V('C04', 'pad-512-minus', BK, 'RawVoltageBackend._make_header', 'bytearray(-80 * header_lines % 512)', 'bytearray(512 - 80 * header_lines % 512)')
+V('C04', 'pad-unconditional', BK, 'RawVoltageBackend._make_header', 'if directio:\n        f.write(bytearray(', 'if True:\n        f.write(bytearray(')
+V('C04', 'helper-ignores-directio', RUF, 'get_header_size', "if int(header_dict.get('DIRECTIO', 0)) != 0:", 'if True:')
+V('C04', 'helper-polarity', RUF, 'get_header_size', "if int(header_dict.get('DIRECTIO', 0)) != 0:", "if int(header_dict.get('DIRECTIO', 0)) == 0:")
+V('C04', 'helper-floor', RUF, 'get_header_size', 'np.ceil(header_size / 512)', 'np.floor(header_size / 512)')
+V('C04', 'helper-no-end', RUF, 'get_header_size', '80 * (len(header_dict) + 1)', '80 * len(header_dict)')
+V('C04', 'blocks-inline-pad', RUF, 'get_blocks_in_file', 'get_header_size(header) + ', "int(512 * np.ceil(80 * (len(header) + 1) / 512)) + ")
+V('C04', 'fromdata-pad', BK, 'RawVoltageBackend.from_data', 'backend.header_size = 80 * (len(backend.input_header_dict) + 1)', 'backend.header_size = 80 * len(backend.input_header_dict)')
+V('C04', 'pktidx-plus1', BK, 'RawVoltageBackend._make_header', "header_dict['PKTIDX'] += self.samples_per_block", "header_dict['PKTIDX'] += 1")
+V('C04', 'pktidx-conditional', BK, 'RawVoltageBackend._make_header', "header_dict['PKTIDX'] += self.samples_per_block", "if directio:\n        header_dict['PKTIDX'] += self.samples_per_block")
+V('C04', 'populate-first', BK, 'RawVoltageBackend.record',
+  "if load_template:\n        header_dict = self._header_add_from_template(header_dict)\n    if self.input_header_dict is not None:\n        header_dict = self._header_add_from_input_header(header_dict)\n    header_dict = self._header_populate_configuration(header_dict)",
+  "header_dict = self._header_populate_configuration(header_dict)\n    if load_template:\n        header_dict = self._header_add_from_template(header_dict)\n    if self.input_header_dict is not None:\n        header_dict = self._header_add_from_input_header(header_dict)")
+V('C04', 'template-overrides', BK, 'RawVoltageBackend._header_add_from_template', "if key != 'END' and key not in header_dict:", "if key != 'END':")
+V('C04', 'input-overrides', BK, 'RawVoltageBackend._header_add_from_input_header', 'if key not in header_dict:', 'if True:')
+V('C04', 'nants-conditional', BK, 'RawVoltageBackend._header_populate_configuration', "header_dict['NANTS'] = self.num_antennas", "if self.is_antenna_array:\n        header_dict['NANTS'] = self.num_antennas")
+V('C04', 'nbits-if-absent', BK, 'RawVoltageBackend._header_populate_configuration', "header_dict['NBITS'] = self.num_bits", "if 'NBITS' not in header_dict:\n        header_dict['NBITS'] = self.num_bits")
+V('C04', 'obsfreq-half', BK, 'RawVoltageBackend._header_populate_configuration', '(self.num_chans - 1) / 2', 'self.num_chans / 2')
+V('C04', 'obsbw-no-sign', BK, 'RawVoltageBackend._header_populate_configuration', "header_dict['OBSBW'] = self.chan_bw * self.num_chans * 1e-06", "header_dict['OBSBW'] = abs(self.chan_bw) * self.num_chans * 1e-06")
+V('C04', 'obsnchan-no-ants', BK, 'RawVoltageBackend._header_populate_configuration', "header_dict['OBSNCHAN'] = self.num_chans * self.num_antennas", "header_dict['OBSNCHAN'] = self.num_chans")
+V('C04', 'end-first', BK, 'RawVoltageBackend._make_header', "header_lines = 0\n    for key", "header_lines = 0\n    f.write(f\"{'END':<80}\".encode())\n    for key")
+V('C04', 'numfiles-floor', BK, 'RawVoltageBackend.record', 'xp.ceil(self.num_blocks / self.blocks_per_file)', 'xp.floor(self.num_blocks / self.blocks_per_file)')
+V('C04', 'lastfile-eq', BK, 'RawVoltageBackend.record', 'if i == num_files - 1 and self.num_blocks % self.blocks_per_file != 0:', 'if i == num_files and self.num_blocks % self.blocks_per_file != 0:')
+V('C04', 'filename-j', BK, 'RawVoltageBackend.record', "save_fn = f'{output_file_stem}.{i:04}.raw'", "save_fn = f'{output_file_stem}.{i + 1:04}.raw'")
+V('C04', 'unsorted-glob', RUF, 'get_total_blocks', "sorted(glob.glob(f'{input_file_stem}.????.raw'))", "glob.glob(f'{input_file_stem}.????.raw')")
+V('C04', 'card-truncate', RUF, 'format_header_line', "line = f'{line:<80}'", "line = f'{line:<80}'[:79]", accept_error=True)
+V('C04', 'two-data-writes', BK, 'RawVoltageBackend.record', 'f.write(xp.array(v, dtype=xp.int8).tobytes())', 'f.write(xp.array(v, dtype=xp.int8).tobytes())\n                    f.write(xp.array(v, dtype=xp.int8).tobytes())')
+V('C04', 'b-pad-equivalent', BK, 'RawVoltageBackend._make_header', 'bytearray(-80 * header_lines % 512)', 'bytearray((512 - 80 * header_lines % 512) % 512)', kind='benign')
+V('C04', 'b-helper-rewrite', RUF, 'get_header_size', 'header_size = int(512 * np.ceil(header_size / 512))', 'header_size = header_size + -header_size % 512', kind='benign')
+V('C04', 'b-sorted-inline', RUF, 'get_total_blocks', 'get_blocks_in_file(filenames[-1])', 'get_blocks_in_file(sorted(filenames)[-1])', kind='benign')
+V('C04', 'b-obsfreq-rewrite', BK, 'RawVoltageBackend._header_populate_configuration',
+  'center_freq = (self.start_chan + (self.num_chans - 1) / 2) * self.chan_bw\n    center_freq += self.fch1',
+  'center_freq = self.fch1 + self.start_chan * self.chan_bw + 0.5 * (self.num_chans - 1) * self.chan_bw', kind='benign')
